@@ -106,3 +106,29 @@ def backlog_round_trip(ctx, rule):
                    '%s :: cmd.%s' % (bf.qname, a),
                    'attribute %s consumed when building the task is not '
                    'restored from the backlog entry' % a, ctx.loc(rf))
+
+
+def subworkflow_recursion_unrestricted(ctx, rule, fq, rec_name):
+    """The handler's recursion into sub-workflows is not restricted by the
+    state of the parent *task*: sub-workflows hang off tasks in any state
+    (a with-items task is already PAUSED when one child paused it), the
+    only filter is on the sub-workflow's own state."""
+    prog, sd = ctx.prog, ctx.sd
+    f = prog.func(fq)
+    cfg = ctx.cfg(f)
+    IN, keys = sd.analyze(cfg, f, [('task_ex.state', sd.state_domain)],
+                          kill=lambda c: ())
+    rec = U.calls_in(cfg, rec_name)
+    rec = [(n, c) for n, c in rec if not isinstance(c.func, ast.Attribute)
+           or dotted(c.func.value) in (None, 'self')]
+    if not rec:
+        raise AnalysisError('%s: recursion into sub-workflows lost' % fq)
+    for n, c in rec:
+        vals = sd.values_at(IN, keys, n, 'task_ex.state')
+        missing = set(sd.ALL) - vals
+        rule.check(not missing, ctx.construct(f, extra='recursion for '
+                                              'tasks in any state'),
+                   'sub-workflows of tasks in state %s are skipped by the '
+                   'recursion (the only legitimate filter is the '
+                   'sub-workflow\'s own state)' % sorted(missing),
+                   ctx.loc(f, c))
